@@ -26,7 +26,7 @@ ASSUMPTIONS = [
 ]
 GATES = {
     "odd_column_offset_with_half_integer_disparities": 1, "even_column_offset_with_half_integer_disparities": 1,
-    "crop_touching_an_image_side": 1, "cbca_distance_1_on_masked_images": 1, "subpix_2": 1, "subpix_4": 1, "cross_checking": 2, "flip_relation_checked": 5, "scene_spanning_two_internal_blocks": 4,
+    "crop_touching_an_image_side": 1, "bilateral_filter_with_an_invalid_area_larger_than_a_chunk": 1, "cbca_distance_1_on_masked_images": 1, "subpix_2": 1, "subpix_4": 1, "cross_checking": 2, "flip_relation_checked": 5, "scene_spanning_two_internal_blocks": 4,
     "interior_pixels_compared": 5000,
 }
 
@@ -100,6 +100,15 @@ def run_case(case, ctx):
     # directed constructor: the smallest legal arm length (cbca_distance 1, then 2) on masked images
     force_cb = [1, 2][case["part"] % 2] if case["i"] == 0 else None
     keys, params, rad, subpix, validation = local_pipeline(rng, force_cb)
+    large_invalid = case["i"] == 2
+    if large_invalid:
+        # directed constructor: a bilateral filter on a wide scene whose left mask holds one large invalid area (the filter
+        # works in internal chunks of 50 x 50 windows; a chunk without any valid centre must not shift its neighbours)
+        keys = ["matching_cost", "disparity", "filter"]
+        params = {"matching_cost": {"matching_cost_method": "sad", "window_size": 3, "subpix": 1},
+                  "disparity": {"disparity_method": "wta", "invalid_disparity": -9999},
+                  "filter": {"filter_method": "bilateral", "sigma_space": [1.4, 2.0][case["part"] % 2], "sigma_color": 2.0}}
+        rad, subpix, validation = 1 + int(3 * params["filter"]["sigma_space"] + 1) // 2 + 1 + 1, 1, False
     dlt = int(rng.integers(1, 6))
     a, b = [(-dlt, dlt), (-dlt, 0), (0, dlt), (-dlt, max(0, dlt - 2)), (-dlt, -1), (1, dlt)][int(rng.integers(0, 6))]
     delta = max(abs(a), abs(b))
@@ -117,6 +126,8 @@ def run_case(case, ctx):
             rows = max(rows, int(rng.integers(104, 131)))
         else:
             cols = max(cols, int(rng.integers(104, 141)))
+    if large_invalid:
+        rows, cols = int(rng.integers(64, 72)), int(rng.integers(200, 224))
     tex = ["random", "lowtex", "patches", "steps"][int(rng.integers(0, 4))]
     L, R = gen.stereo_pair(rng, rows, cols, tex, max_shift=min(delta, 3), noise=2)
     L, R = np.clip(L, 0, 255), np.clip(R, 0, 255)
@@ -127,6 +138,10 @@ def run_case(case, ctx):
     lm = gen.mask(rng, rows, cols, ["sparse", "exotic", "stripes"][int(rng.integers(0, 3))]) if (rng.random() < 0.4 or force_cb) else None
     rm = gen.mask(rng, rows, cols, ["sparse", "exotic"][int(rng.integers(0, 2))]) if (rng.random() < 0.3 or force_cb) else None
     ctx.gate("cbca_distance_1_on_masked_images", int(force_cb == 1))
+    if large_invalid:
+        lm = np.zeros((rows, cols), np.int16) if lm is None else lm
+        lm[0:60, 48:116] = 2
+    ctx.gate("bilateral_filter_with_an_invalid_area_larger_than_a_chunk", int(large_invalid))
     left = gen.make_dataset(L, (a, b), lm)
     right = gen.make_dataset(R, None, rm)
     pipe = pipes.build_pipe(keys, params)
@@ -148,6 +163,8 @@ def run_case(case, ctx):
             c0 = c0 & ~1                      # even column offset
         elif j == 2:
             r0, c0 = 0, 0                     # crop touching two image sides
+        elif j == 3 and large_invalid:
+            c0, w_ = 118, cols - 118          # a tile on the right of the large invalid area
         lc, rc = crop_ds(left, r0, r0 + h, c0, c0 + w_), crop_ds(right, r0, r0 + h, c0, c0 + w_)
         lcr, _, _, _ = pipes.check_and_run(pipe, lc, rc)
         dc, mc = lcr["disparity_map"].data, lcr["validity_mask"].data
